@@ -189,9 +189,9 @@ class Corpus:
                     raise CheckError("generated packages do not build and no program can be blamed:\n" + p.stdout[-2000:])
                 for pid, msg in bad.items():
                     self.unbuildable[pid] = msg
-                    d = self.where.pop(pid, None)
-                    if d:
-                        for t in ("src", "out", "unopt"):
+                    self.where.pop(pid, None)
+                    for t in ("src", "out", "unopt"):
+                        for d in self.batches:
                             fp = os.path.join(ws, t, d, "gen_%s.go" % pid)
                             if os.path.exists(fp):
                                 os.remove(fp)
